@@ -149,6 +149,15 @@ class C07(Check):
                 M = np.asarray(rc["metrics"], dtype=float)
                 if M.ndim != 3:
                     continue
+                # the engine works with the policy, reward and metrics it was configured with (in the configured order)
+                econf = next((e for e in case["config"]["engines"] if e["unique_id"] == eid), None)
+                if econf is not None:
+                    din0 = st.get("decision_in", {}).get(eid)
+                    got = (None if din0 is None else din0["policy"], rc["reward_cls"], list(rc["names"]))
+                    want = (econf["decision"]["name"] if din0 is not None else None, econf["reward"]["name"], [m["name"] for m in econf["reward"]["metrics"]])
+                    if got != want:
+                        viol.append({"clause": "engine-differs-from-its-configuration", "key": "policy/reward/metrics", "detail": f"step {k} engine {eid}: configured {want}, running {got}"})
+                        continue
                 ref = dec.reference_reward(rc["reward_cls"], rc["names"], M, rc["delta"])
                 val = np.asarray(rc["value"], dtype=float).reshape(M.shape[0], M.shape[1])
                 if ref is not None:
